@@ -275,6 +275,9 @@ func (r *runner) compareSearch(label string, s *Search, corpus *model.Corpus) bo
 			r.fracOf[mid(h.ID)] = h.Hint
 		}
 	}
+	if r.c.Oracles.IDsOnly {
+		return true
+	}
 	if s.WithTotal && res.Total != uint64(len(want)) {
 		r.violate("total", "%s: search %q reports total %d, model has %d matching documents", label, s.Q.SeqQL(), res.Total, len(want))
 		return false
@@ -295,18 +298,32 @@ func (r *runner) compareSearch(label string, s *Search, corpus *model.Corpus) bo
 		}
 	}
 	if len(s.Aggs) > 0 {
-		if len(res.Aggs) != len(s.Aggs) {
+		got := padAggs(res.Aggs, len(s.Aggs))
+		if len(got) != len(s.Aggs) {
 			r.violate("aggregation", "%s: %d aggregations requested, %d returned", label, len(s.Aggs), len(res.Aggs))
 			return false
 		}
 		for i, a := range s.Aggs {
-			if msg := compareAgg(a, res.Aggs[i], model.Agg(want, a.Func, a.Field, a.GroupBy)); msg != "" {
+			if msg := compareAgg(a, got[i], model.Agg(want, a.Func, a.Field, a.GroupBy)); msg != "" {
 				r.violate("aggregation", "%s: search %q agg %+v: %s", label, s.Q.SeqQL(), a, msg)
 				return false
 			}
 		}
 	}
 	return true
+}
+
+// padAggs: a response without any aggregation entry stands for "every aggregation is empty" (that
+// is what a merge of zero partial results produces); it is compared as such, not as a shape error.
+func padAggs(got []*pb.SearchResponse_Agg, n int) []*pb.SearchResponse_Agg {
+	if len(got) == 0 {
+		out := make([]*pb.SearchResponse_Agg, n)
+		for i := range out {
+			out[i] = &pb.SearchResponse_Agg{}
+		}
+		return out
+	}
+	return got
 }
 
 func compareAgg(a simenv.AggReq, got *pb.SearchResponse_Agg, want *model.AggExpect) string {
@@ -352,28 +369,48 @@ func compareAgg(a simenv.AggReq, got *pb.SearchResponse_Agg, want *model.AggExpe
 
 // validateRetention: fractions may have been retired. Each fraction is completely served or
 // completely gone, the served ones are the newest, gone ones never come back.
+// The maintenance loop keeps running while the harness looks, and one search is not atomic with
+// respect to a retention pass (fractions are visited newest-border first while retention retires
+// oldest-created first), so an ordering/partial anomaly only counts if it persists in listings taken
+// after retention had time to finish.
 func (r *runner) validateRetention(label string) {
+	pause := time.Duration(3*r.c.Knobs.MaintenanceDelayMs+10) * time.Millisecond
+	var clause, detail string
+	for attempt := 0; attempt < 4; attempt++ {
+		if attempt > 0 {
+			r.s.Probe("retention_listing_retry")
+			r.s.SleepSim(pause)
+			if !r.st.Node.Alive() {
+				return
+			}
+		}
+		var final bool
+		clause, detail, final = r.listRetention(label)
+		if clause == "" {
+			return
+		}
+		if final {
+			break
+		}
+	}
+	r.violate(clause, "%s", detail)
+}
+
+// listRetention takes one listing. final = the anomaly cannot be an overlap with a retention pass.
+func (r *runner) listRetention(label string) (clause, detail string, final bool) {
 	s := &Search{Q: &model.Q{Op: "all"}, From: 0, To: math.MaxInt64, Size: 1000000, Desc: true}
 	res, status, err := r.st.Search(opTimeout, toReq(s))
 	if status != "done" {
 		if status == "timeout" {
-			r.violate("hang", "search did not return\n%s", r.s.DumpTasks())
+			return "hang", "search did not return\n" + r.s.DumpTasks(), true
 		}
-		return
+		return "", "", true
 	}
 	if err != nil || res.Code != pb.SearchErrorCode_NO_ERROR {
-		// a mature hot store refuses from=0 ("wants old data"): ask again from the oldest fraction on
-		if err == nil && res.Code == pb.SearchErrorCode_INGESTOR_QUERY_WANTS_OLD_DATA {
-			s.From = r.st.FM.OldestCT.Load()
-			res, status, err = r.st.Search(opTimeout, toReq(s))
-		}
-		if status != "done" || err != nil || res.Code != pb.SearchErrorCode_NO_ERROR {
-			r.violate("api_error", "%s: listing search failed: %v code=%v", label, err, res)
-			return
-		}
+		return "api_error", fmt.Sprintf("%s: listing search failed: %v code=%v", label, err, res), true
 	}
 	if !r.checkSound(s, res, label) {
-		return
+		return "", "", true // already recorded
 	}
 	served := map[string]int{}
 	servedIDs := map[model.ID]bool{}
@@ -381,21 +418,38 @@ func (r *runner) validateRetention(label string) {
 		id := mid(h.ID)
 		servedIDs[id] = true
 		if prev, ok := r.fracOf[id]; ok && prev != h.Hint {
-			r.violate("doc_moved", "%s: document %s was served by fraction %s, now by %s", label, id, prev, h.Hint)
-			return
+			return "doc_moved", fmt.Sprintf("%s: document %s was served by fraction %s, now by %s", label, id, prev, h.Hint), true
 		}
-		r.fracOf[id] = h.Hint
-		r.fracSeen[h.Hint] = true
 		served[h.Hint]++
 		if r.gone[h.Hint] {
-			r.violate("fraction_reappeared", "%s: fraction %s, whose deletion had begun on disk, serves document %s again", label, h.Hint, id)
-			return
+			return "fraction_reappeared", fmt.Sprintf("%s: fraction %s, whose deletion had begun on disk, serves document %s again", label, h.Hint, id), true
 		}
 	}
-	// whole fractions only
+	// only documents of acknowledged bulks are promised to stay; an unacknowledged document that was
+	// visible after a process exit may legitimately vanish with a later power loss
+	ackedDoc := map[model.ID]bool{}
+	for _, bn := range r.bulkOrder {
+		if b := r.bulks[bn]; b.status == "acked" {
+			for _, d := range b.docs {
+				ackedDoc[d.ID()] = true
+			}
+		}
+	}
 	known := map[string]int{}
-	for _, f := range r.fracOf {
-		known[f]++
+	for id, f := range r.fracOf {
+		if ackedDoc[id] {
+			known[f]++
+		}
+	}
+	for _, h := range res.Hits {
+		if _, ok := r.fracOf[mid(h.ID)]; !ok && ackedDoc[mid(h.ID)] {
+			known[h.Hint]++
+		}
+	}
+	for _, h := range res.Hits {
+		if !ackedDoc[mid(h.ID)] {
+			served[h.Hint]--
+		}
 	}
 	names := make([]string, 0, len(known))
 	for f := range known {
@@ -407,19 +461,21 @@ func (r *runner) validateRetention(label string) {
 		switch {
 		case served[f] == 0:
 			if firstServed >= 0 {
-				r.violate("retention_order", "%s: fraction %s is gone while older fraction %s is still served (known fractions %v, served %v)", label, f, names[firstServed], names, served)
-				return
+				return "retention_order", fmt.Sprintf("%s: fraction %s is gone while older fraction %s is still served (served %v; fractions %v; files %v)", label, f, names[firstServed], served, r.st.Fracs(), r.st.SortedFileList()), false
 			}
 		case served[f] == known[f]:
 			if firstServed < 0 {
 				firstServed = i
 			}
 		default:
-			r.violate("fraction_partial", "%s: fraction %s serves %d of its %d known documents", label, f, served[f], known[f])
-			return
+			return "fraction_partial", fmt.Sprintf("%s: fraction %s serves %d of its %d known documents", label, f, served[f], known[f]), false
 		}
 	}
-	// acknowledged documents never observed anywhere may only be missing if retention could have taken them
+	// consistent listing: learn from it
+	for _, h := range res.Hits {
+		r.fracOf[mid(h.ID)] = h.Hint
+		r.fracSeen[h.Hint] = true
+	}
 	unobserved := 0
 	for _, bn := range r.bulkOrder {
 		b := r.bulks[bn]
@@ -443,19 +499,37 @@ func (r *runner) validateRetention(label string) {
 	sort.Slice(ids, func(i, j int) bool { return model.Less(ids[i], ids[j]) })
 	bodies, ok := r.fetchIDs(ids)
 	if !ok {
-		return
+		return "", "", true
 	}
+	var relist *simenv.SearchRes
 	for i, id := range ids {
 		if bodies[i] == nil {
-			r.violate("fetch_after_search", "%s: listed document %s is not fetchable", label, id)
-			return
+			// retention may have retired the document's fraction between the listing and the fetch:
+			// then the whole fraction must be gone from a fresh listing
+			if relist == nil {
+				relist, _, _ = r.st.Search(opTimeout, toReq(s))
+			}
+			stillServed := false
+			if relist != nil {
+				for _, h := range relist.Hits {
+					if h.Hint == r.fracOf[id] {
+						stillServed = true
+						break
+					}
+				}
+			}
+			if relist == nil || stillServed {
+				return "fetch_after_search", fmt.Sprintf("%s: listed document %s (fraction %s) is not fetchable although its fraction is still served", label, id, r.fracOf[id]), false
+			}
+			r.s.Probe("retired_between_list_and_fetch")
+			continue
 		}
 		if string(bodies[i]) != string(r.issued[id].Body()) {
-			r.violate("wrong_bytes", "%s: fetch of %s returned %q, ingested %q", label, id, clip(bodies[i]), clip(r.issued[id].Body()))
-			return
+			return "wrong_bytes", fmt.Sprintf("%s: fetch of %s returned %q, ingested %q", label, id, clip(bodies[i]), clip(r.issued[id].Body())), true
 		}
 	}
 	r.logf("validate(retention) %s ok: %d served docs in %d fractions, %d known fractions", label, len(ids), len(served), len(names))
+	return "", "", true
 }
 
 // ---- asynchronous search (C19) -----------------------------------------------------------------
@@ -571,12 +645,13 @@ func (r *runner) asyncWait(a *AsyncReq) {
 			}
 		}
 	}
-	if len(got.Aggs) != len(s.Aggs) {
+	gotAggs := padAggs(got.Aggs, len(s.Aggs))
+	if len(gotAggs) != len(s.Aggs) {
 		r.violate("async_result", "asynchronous search %q: %d aggregations requested, %d returned", s.Q.SeqQL(), len(s.Aggs), len(got.Aggs))
 		return
 	}
 	for i, ag := range s.Aggs {
-		if msg := compareAgg(ag, got.Aggs[i], model.Agg(want, ag.Func, ag.Field, ag.GroupBy)); msg != "" {
+		if msg := compareAgg(ag, gotAggs[i], model.Agg(want, ag.Func, ag.Field, ag.GroupBy)); msg != "" {
 			r.violate("async_result", "asynchronous search %q agg %+v: %s", s.Q.SeqQL(), ag, msg)
 			return
 		}
